@@ -1594,3 +1594,59 @@ def patch_module(mod, **extra):
     mod.round = sym_round_builtin
     for k, v in extra.items():
         setattr(mod, k, v)
+
+
+# --------------------------------------------------------------------------- #
+# bit-level models (int16 sync words)
+
+
+def _view_bytes(self, dtype=None, type=None):
+    """SymArray.view: structural views keep working, uint8 reinterpretation of bit-vector words is modelled"""
+    if dtype is None and type is None:
+        return np.ndarray.view(self)
+    if isinstance(dtype, builtins.type) and issubclass(dtype, np.ndarray):
+        return np.ndarray.view(self, dtype)
+    if type is not None and dtype is None:
+        return np.ndarray.view(self, type)
+    d = _np_dtype(dtype)
+    if d == object:
+        return np.ndarray.view(self, np.ndarray).view(SymArray)
+    plain = np.ndarray.view(self, np.ndarray)
+    if d == np.dtype(np.uint8):
+        out = []
+        for e in plain.ravel().tolist():
+            if isinstance(e, SBV):
+                w = e.width
+                for b in range(w // 8):  # little endian
+                    out.append(SBV(z3.Extract(8 * b + 7, 8 * b, e.t), signed=False))
+            elif isinstance(e, (builtins.int, np.integer)):
+                tg = self.tag or np.dtype(np.int16)
+                for b in np.array([e], dtype=tg).view(np.uint8).tolist():
+                    out.append(b)
+            else:
+                raise Unsupported(f"byte view of {builtins.type(e).__name__}")
+        k = len(out) // max(plain.size, 1) if plain.size else 1
+        shp = plain.shape[:-1] + (plain.shape[-1] * k,) if plain.ndim else (k,)
+        r = mk(out, shape=shp, tag=np.dtype(np.uint8))
+        return r
+    raise Unsupported(f"view as {d}")
+
+
+SymArray.view = _view_bytes
+
+
+def sym_unpackbits(a, axis=None, count=None, bitorder="big"):
+    if axis is not None or count is not None:
+        raise Unsupported("unpackbits axis/count")
+    out = []
+    for e in _plain(a).ravel().tolist():
+        rng = range(7, -1, -1) if bitorder == "big" else range(8)
+        for b in rng:
+            if isinstance(e, SBV):
+                out.append(SBV(z3.Extract(b, b, e.t), signed=False))
+            else:
+                out.append((builtins.int(e) >> b) & 1)
+    return mk(out, tag=np.dtype(np.uint8))
+
+
+_reg(np.unpackbits, sym_unpackbits)
